@@ -61,16 +61,21 @@ def step (st : St) (l : Line) : St × List Msg :=
     -- (a) property oracle on the real recovery
     -- inside the re-bucketing (C09) an open that fails is tolerated: the clause there is "never opens successfully with fewer keys"
     let inTranslate := point.startsWith "translate." || point.startsWith "movefiles." || (st.lastOp == "open" && (point.startsWith "index." || point.startsWith "open."))
-    let p0 := if openRes = "ok" then [] else
-      if inTranslate && openRes = "err" then [] else [Msg.prop (tag ++ s!"next open does not succeed ({openRes})")]
-    let pr := if openRes ≠ "ok" then [] else
+    -- every failure carries the digests it is about (none = the whole store), so that a recogniser that concerns particular
+    -- keys cannot excuse a failure of other keys
+    let differing := fun (a b : List String) => ((digs.zip (a.zip b)).filter fun (_, (x, y)) => x ≠ y).map (·.1)
+    let p0 : List (Option (List Bytes) × Msg) := if openRes = "ok" then [] else
+      if inTranslate && openRes = "err" then [] else [(none, Msg.prop (tag ++ s!"next open does not succeed ({openRes})"))]
+    let pr : List (Option (List Bytes) × Msg) := if openRes ≠ "ok" then [] else
       ((digs.zip r0).filterMap fun (dg, r) =>
-        if r = "err" then some (Msg.prop (tag ++ s!"key {toHex dg} reads as an error after recovery"))
+        if r = "err" then some (some [dg], Msg.prop (tag ++ s!"key {toHex dg} reads as an error after recovery"))
         else if (allowedFor base since dg).contains r then none
-        else some (Msg.prop (tag ++ s!"key {toHex dg} reads [{r}] after recovery; allowed: {allowedFor base since dg}"))) ++
-      (if ra.get "post" = "ok" then [] else [Msg.prop (tag ++ s!"recovered store fails a follow-up call: {ra.get "post"}")]) ++
-      (if r1 = r0 ++ ["vc4a5"] then [] else [Msg.prop (tag ++ s!"contents change across follow-up put/flush/GC cycles: r0=[{ra.get "r0"}] r1=[{ra.get "r1"}]")]) ++
-      (if r2 = r1 then [] else [Msg.prop (tag ++ s!"contents change across close and rescan: r1=[{ra.get "r1"}] r2=[{ra.get "r2"}]")])
+        else some (some [dg], Msg.prop (tag ++ s!"key {toHex dg} reads [{r}] after recovery; allowed: {allowedFor base since dg}"))) ++
+      (if ra.get "post" = "ok" then [] else [(none, Msg.prop (tag ++ s!"recovered store fails a follow-up call: {ra.get "post"}"))]) ++
+      (if r1 = r0 ++ ["vc4a5"] then [] else [(if r1.length = r0.length + 1 then some (differing r0 r1) else none,
+         Msg.prop (tag ++ s!"contents change across follow-up put/flush/GC cycles: r0=[{ra.get "r0"}] r1=[{ra.get "r1"}]"))]) ++
+      (if r2 = r1 then [] else [(if r2.length = r1.length then some (differing r1 r2) else none,
+         Msg.prop (tag ++ s!"contents change across close and rescan: r1=[{ra.get "r1"}] r2=[{ra.get "r2"}]"))])
     -- (b) correspondence: the model's recovery of the same bytes
     let remapPending : Bool := match im.disk.ihdr with
       | some h => h.pfs == 0 && st.seq.cfg.kind == .mh
@@ -117,14 +122,19 @@ def step (st : St) (l : Line) : St × List Msg :=
     let tainted := if isEnd then st.taint11 else (st.imgTaint11 || st.taint11)
     -- D14: the resume of the offset remapping trusts `.remapped` markers, which are created before the remapped copy is renamed
     -- over the original and whose files' deletion pool is not rebuilt
-    let remapMarked := im.extra.any (·.endsWith ".remapped") ||
-      -- second form: unmappable entries are rewritten to offset 0 in the file and deleted only by an in-memory pool that is
-      -- flushed after Open; a crash of the upgrading open in between leaves them pointing at offset 0
-      (!st.seq.legacyBad.isEmpty && st.lastOp == "open" && st.upgradingOpen)
-    let known := if remapMarked then " [known:D14 remap-marker-before-rename]" else if noHeader then " [known:D13 translate-header-absent]" else if tornPrimary then " [known:D12 torn-primary-tail]"
-                 else if tainted then " [known:D11 gc-handover-with-dirty-index]" else ""
-    let tagMsg := fun (m : Msg) => match m with
-      | .prop s => Msg.prop (s ++ known)
+    let remapMarked := im.extra.any (·.endsWith ".remapped")
+    -- second form: unmappable entries are rewritten to offset 0 in the file and deleted only by an in-memory pool that is
+    -- flushed after Open; a crash of the upgrading open in between leaves THOSE entries pointing at offset 0 (which can resolve
+    -- to an old record of the same key): it concerns the keys of the unmappable entries only
+    let badDigests := st.seq.legacyBad.filterMap fun i => (st.seq.legacyRecs[i]?).map fun (k, _) => (indexKeyOf kind k).getD []
+    let badPoolLost := !st.seq.legacyBad.isEmpty && st.lastOp == "open" && st.upgradingOpen
+    let knownFor := fun (about : Option (List Bytes)) =>
+      if remapMarked then " [known:D14 remap-marker-before-rename]"
+      else if badPoolLost && (match about with | some ds => !ds.isEmpty && ds.all (badDigests.contains ·) | none => false) then " [known:D14 remap-marker-before-rename]"
+      else if noHeader then " [known:D13 translate-header-absent]" else if tornPrimary then " [known:D12 torn-primary-tail]"
+      else if tainted then " [known:D11 gc-handover-with-dirty-index]" else ""
+    let tagMsg := fun (am : Option (List Bytes) × Msg) => match am.2 with
+      | .prop s => Msg.prop (s ++ knownFor am.1)
       | m => m
     (st, (p0 ++ pr).map tagMsg ++ corr ++ flags)
   | _ =>
